@@ -500,7 +500,7 @@ func genBatchReaders(g *G, prog *Program) {
 	}
 	var ws [][]COp
 	var writer []COp
-	for r, m := 0, 1+g.uni(2, "brbatches"); r < m; r++ {
+	for r, m := 0, 2+g.uni(3, "brbatches"); r < m; r++ {
 		var batch []COp
 		for i := 0; i < n; i++ {
 			batch = append(batch, COp{Kind: "update", Ref: i, Sets: []FieldSet{{Path: "S2", V: Val{K: "s", S: fmt.Sprint("new", r)}}}})
@@ -510,9 +510,11 @@ func genBatchReaders(g *G, prog *Program) {
 	ws = append(ws, writer)
 	for w, nr := 0, 1+g.uni(3, "brreaders"); w < nr; w++ {
 		var ops []COp
-		for r, m := 0, 1+g.uni(3, "brrounds"); r < m; r++ {
+		// many rounds: the readers have to be still at it when the batch reaches its write phase
+		kind := pickU(g, []string{"get", "get", "getByUUID"}, "brget")
+		for r, m := 0, 6+g.uni(10, "brrounds"); r < m; r++ {
 			for i := 0; i < n; i++ {
-				ops = append(ops, COp{Kind: pickU(g, []string{"get", "getByUUID"}, "brget"), Ref: i})
+				ops = append(ops, COp{Kind: kind, Ref: i})
 			}
 		}
 		ws = append(ws, ops)
